@@ -854,3 +854,49 @@ pub fn selftest(full: bool) -> Vec<(String, bool)> {
     }
     r
 }
+
+// ---------------------------------------------------------------- crafted G1 points
+/// square root in F_p (p = 5 mod 8, Atkin)
+pub fn sqrt_p(a: &BigUint) -> Option<BigUint> {
+    let p = &params().p;
+    let a = a % p;
+    if a.is_zero() {
+        return Some(a);
+    }
+    let two_a = (&a * 2u32) % p;
+    let v = two_a.modpow(&((p - 5u32) >> 3), p);
+    let i = (&two_a * &v % p) * &v % p;
+    let r = (&a * &v % p) * ((&i + p - 1u32) % p) % p;
+    if (&r * &r) % p == a {
+        Some(r)
+    } else {
+        None
+    }
+}
+/// cube root in F_p (p = 4 mod 9): a^((2p+1)/9) when a is a cubic residue
+pub fn cbrt_p(a: &BigUint) -> Option<BigUint> {
+    let p = &params().p;
+    let a = a % p;
+    let e = (p * 2u32 + 1u32) / 9u32;
+    let r = a.modpow(&e, p);
+    if (&r * &r % p) * &r % p == a {
+        Some(r)
+    } else {
+        None
+    }
+}
+/// G1 point whose x^3 has the given Montgomery representation (x^3 * 2^256 mod p = v)
+pub fn g1_point_with_mont_x3(v: &[u64; 4]) -> Option<(BigUint, BigUint)> {
+    let p = &params().p;
+    if from_limbs(v) >= *p {
+        return None;
+    }
+    let x3 = from_mont(v);
+    let x = cbrt_p(&x3)?;
+    let y = sqrt_p(&((x3 + 5u32) % p))?;
+    if g1_on_curve(&x, &y) {
+        Some((x, y))
+    } else {
+        None
+    }
+}
